@@ -43,6 +43,8 @@ type Obj struct {
 	Ctx  string          // allocation context (empty inside recursion)
 	id   int
 	Cont bool // a container (slice/array/map/channel backing store) as opposed to a struct or variable cell
+	// OutGo: allocated (at least once) outside any concurrent region; InGoAlloc: allocated inside one
+	OutGo, InGoAlloc bool
 }
 
 // ObjSet is a set of abstract objects (a bit set over the objects' serial
@@ -167,6 +169,8 @@ type Write struct {
 	Stack  []string
 	InGo   bool
 	Locked bool
+	Multi  bool   // inside a worker-pool body (several instances run at once)
+	Var    string // captured variable name for class "captured"
 }
 
 // Analysis is one query.
@@ -180,10 +184,12 @@ type Analysis struct {
 	fv     map[ssa.Value]ObjSet
 	env    map[*Obj]map[ssa.Value]ObjSet // captured variables of closure objects
 	active map[*ssa.Function]int
+	factory map[*ssa.Function]bool
 	memo   map[string]*result
 	Writes map[string]*Write
 	stack  []string
 	inGo   int
+	inPool int
 	Budget int
 	steps  int
 	Over   bool
@@ -218,7 +224,7 @@ type Watched struct {
 
 // New prepares a query rooted at fn.
 func New(p *load.Prog, g *cg.Graph, fn *ssa.Function) *Analysis {
-	return &Analysis{P: p, G: g, Root: fn, objs: map[string]*Obj{}, Heap: map[*Obj]map[string]ObjSet{}, follow: map[string]bool{"[]": true, "SimpleNode.children": true, "Document.nodes": true}, fv: map[ssa.Value]ObjSet{}, env: map[*Obj]map[ssa.Value]ObjSet{}, active: map[*ssa.Function]int{},
+	return &Analysis{P: p, G: g, Root: fn, objs: map[string]*Obj{}, Heap: map[*Obj]map[string]ObjSet{}, follow: map[string]bool{"[]": true, "SimpleNode.children": true, "Document.nodes": true}, fv: map[ssa.Value]ObjSet{}, env: map[*Obj]map[ssa.Value]ObjSet{}, active: map[*ssa.Function]int{}, factory: map[*ssa.Function]bool{},
 		memo: map[string]*result{}, Writes: map[string]*Write{}, Budget: 400000}
 }
 
@@ -395,10 +401,78 @@ func (a *Analysis) call(fn *ssa.Function, args []ObjSet, bools []int8, visited m
 }
 
 func (a *Analysis) callClo(fn *ssa.Function, clo *Obj, args []ObjSet, bools []int8, visited map[string]bool) []ObjSet {
+	return a.callSite(fn, clo, nil, args, bools, visited)
+}
+
+// isFactory: a small function that returns an object it allocates (or the
+// result of another factory): its allocation sites are split by the call site
+// of the factory (one level of heap cloning), so that e.g. the throw-away
+// documents made by NewDocument() in different places are different objects.
+func (a *Analysis) isFactory(fn *ssa.Function) bool {
+	if r, ok := a.factory[fn]; ok {
+		return r
+	}
+	a.factory[fn] = false
+	n := 0
+	for _, b := range fn.Blocks {
+		n += len(b.Instrs)
+	}
+	if n > 80 || fn.Signature.Results().Len() == 0 {
+		return false
+	}
+	res := false
+	var fresh func(v ssa.Value, depth int) bool
+	fresh = func(v ssa.Value, depth int) bool {
+		if depth > 4 {
+			return false
+		}
+		switch x := v.(type) {
+		case *ssa.Alloc:
+			return x.Parent() == fn
+		case *ssa.Call:
+			cal := x.Call.StaticCallee()
+			return cal != nil && cal != fn && cal.Blocks != nil && a.P.IsRepoFunc(cal) && a.isFactory(cal)
+		case *ssa.Phi:
+			for _, e := range x.Edges {
+				if !fresh(e, depth+1) {
+					if k, ok := e.(*ssa.Const); ok && k.Value == nil {
+						continue
+					}
+					return false
+				}
+			}
+			return true
+		case *ssa.MakeInterface:
+			return fresh(x.X, depth+1)
+		case *ssa.ChangeType:
+			return fresh(x.X, depth+1)
+		}
+		return false
+	}
+	for _, b := range fn.Blocks {
+		if ret, ok := b.Instrs[len(b.Instrs)-1].(*ssa.Return); ok && len(ret.Results) > 0 {
+			if fresh(ret.Results[0], 0) {
+				res = true
+			} else if k, isK := ret.Results[0].(*ssa.Const); !isK || k.Value != nil {
+				a.factory[fn] = false
+				return false
+			}
+		}
+	}
+	a.factory[fn] = res
+	return res
+}
+
+func (a *Analysis) callSite(fn *ssa.Function, clo *Obj, site ssa.Instruction, args []ObjSet, bools []int8, visited map[string]bool) []ObjSet {
 	if fn.Blocks == nil {
 		return nil
 	}
 	key := ctxKey(fn, args, bools, clo)
+	siteCtx := ""
+	if site != nil && a.isFactory(fn) {
+		siteCtx = fmt.Sprintf("%p", site)
+		key += "@" + siteCtx
+	}
 	r := a.memo[key]
 	if r == nil {
 		r = &result{}
@@ -414,7 +488,24 @@ func (a *Analysis) callClo(fn *ssa.Function, clo *Obj, args []ObjSet, bools []in
 	// Allocation sites are not split by context: a context-sensitive heap was
 	// tried and is intractable here (the contexts multiply through the
 	// recursive copy/merge functions).
-	allocCtx := ""
+	allocCtx := siteCtx
+	if allocCtx == "" {
+		// two variants of every allocation site: calls whose arguments are made of fresh objects only, and the rest;
+		// this keeps the temporary containers of helpers (Families(), NodesWithTag, ...) that are applied to a
+		// throw-away document apart from those applied to the state under analysis
+		fresh, any := true, false
+		for _, s := range args {
+			for _, o := range s.List() {
+				any = true
+				if o.Kind != "S" && o.Kind != "F" {
+					fresh = false
+				}
+			}
+		}
+		if fresh && any {
+			allocCtx = "fresh"
+		}
+	}
 	a.active[fn]++
 	rets := a.analyse(fn, clo, allocCtx, args, bools, visited)
 	a.active[fn]--
@@ -691,7 +782,7 @@ func (a *Analysis) recordWrite(f *frame, ins ssa.Instruction, field, class strin
 	k := fmt.Sprintf("%p|%s", ins, field)
 	w := a.Writes[k]
 	if w == nil {
-		w = &Write{Field: field, Class: class, Instr: ins, Fn: f.fn, Target: newSet(), Stack: append([]string{}, a.stack...), InGo: a.inGo > 0}
+		w = &Write{Field: field, Class: class, Instr: ins, Fn: f.fn, Target: newSet(), Stack: append([]string{}, a.stack...), InGo: a.inGo > 0, Locked: lockedAt(ins)}
 		a.Writes[k] = w
 		a.changed = true
 	}
@@ -701,12 +792,20 @@ func (a *Analysis) recordWrite(f *frame, ins ssa.Instruction, field, class strin
 	if a.inGo > 0 {
 		w.InGo = true
 	}
+	if a.inPool > 0 {
+		w.Multi = true
+	}
 }
 
 func (a *Analysis) transfer(f *frame, ins ssa.Instruction, visited map[string]bool, rets *[]ObjSet) bool {
 	switch x := ins.(type) {
 	case *ssa.Alloc:
 		o := a.objCtx("S", 0, x, nil, nil, f.ctx)
+		if a.inGo > 0 {
+			o.InGoAlloc = true
+		} else {
+			o.OutGo = true
+		}
 		if _, isArr := x.Type().Underlying().(*types.Pointer).Elem().Underlying().(*types.Array); isArr {
 			o.Cont = true
 		}
@@ -792,6 +891,25 @@ func (a *Analysis) transfer(f *frame, ins ssa.Instruction, visited map[string]bo
 			}
 			w.Val.addAll(v)
 			w.Addr.addAll(objs)
+		}
+		if class == "" && a.MarkGo && a.inGo > 0 && field != "" {
+			a.recordWrite(f, x, field, "heap", objs)
+		}
+		if fvv, ok := x.Addr.(*ssa.FreeVar); ok && a.MarkGo && a.inGo > 0 {
+			shared := newSet()
+			for _, o := range objs.List() {
+				if o.Kind == "S" && o.OutGo {
+					shared.add(a.unknown()) // recorded through the generic path below with a synthetic target
+				}
+			}
+			if shared.Len() > 0 {
+				k := fmt.Sprintf("%p|captured", x)
+				if a.Writes[k] == nil {
+					a.Writes[k] = &Write{Field: "captured variable " + fvv.Name(), Class: "captured", Instr: x, Fn: f.fn, Target: shared, Stack: append([]string{}, a.stack...),
+						InGo: true, Locked: lockedAt(x), Multi: a.inPool > 0, Var: fvv.Name()}
+					a.changed = true
+				}
+			}
 		}
 		if class != "" {
 			a.recordWrite(f, x, field, class, objs)
@@ -1002,6 +1120,7 @@ func (a *Analysis) doCall(f *frame, site ssa.CallInstruction, cc *ssa.CallCommon
 			conc := a.MarkGo && cal.Pkg != nil && cal.Pkg.Pkg.Path() == load.PkgUtil && cal.Name() == "WorkerPool"
 			if conc {
 				a.inGo++
+				a.inPool++
 			}
 			site2 := ""
 			if site.Pos().IsValid() {
@@ -1020,11 +1139,12 @@ func (a *Analysis) doCall(f *frame, site ssa.CallInstruction, cc *ssa.CallCommon
 					}
 				}
 			} else {
-				r = a.call(cal, args, bools, visited)
+				r = a.callSite(cal, nil, site, args, bools, visited)
 			}
 			a.stack[len(a.stack)-1] = strings.TrimSuffix(a.stack[len(a.stack)-1], site2)
 			if conc {
 				a.inGo--
+				a.inPool--
 			}
 			merge(r)
 			continue
@@ -1503,4 +1623,62 @@ func reslices(v ssa.Value, depth int, seen map[ssa.Value]bool) []*ssa.Slice {
 		return reslices(x.X, depth+1, seen)
 	}
 	return nil
+}
+
+// lockedAt: the instruction sits between a Lock and an Unlock of a mutex in
+// its function (Lock earlier in a dominating position, Unlock later in the
+// same block or deferred).
+func lockedAt(ins ssa.Instruction) bool {
+	fn := ins.Parent()
+	if fn == nil {
+		return false
+	}
+	isMutexCall := func(i ssa.Instruction, name string) bool {
+		c, ok := i.(ssa.CallInstruction)
+		if !ok {
+			return false
+		}
+		cal := c.Common().StaticCallee()
+		if cal == nil || cal.Pkg == nil || cal.Pkg.Pkg.Path() != "sync" || cal.Name() != name {
+			return false
+		}
+		return true
+	}
+	lockBefore, unlockAfter := false, false
+	for _, b := range fn.Blocks {
+		for _, i := range b.Instrs {
+			if isMutexCall(i, "Lock") || isMutexCall(i, "RLock") {
+				if b == ins.Block() {
+					if before(b, i, ins) {
+						lockBefore = true
+					}
+				} else if b.Dominates(ins.Block()) {
+					lockBefore = true
+				}
+			}
+			if isMutexCall(i, "Unlock") || isMutexCall(i, "RUnlock") {
+				if _, isDefer := i.(*ssa.Defer); isDefer {
+					unlockAfter = true
+				} else if b == ins.Block() && before(b, ins, i) {
+					unlockAfter = true
+				} else if ins.Block().Dominates(b) && b != ins.Block() {
+					unlockAfter = true
+				}
+			}
+		}
+	}
+	return lockBefore && unlockAfter
+}
+
+func before(b *ssa.BasicBlock, x, y ssa.Instruction) bool {
+	ix, iy := -1, -1
+	for i, ins := range b.Instrs {
+		if ins == x {
+			ix = i
+		}
+		if ins == y {
+			iy = i
+		}
+	}
+	return ix >= 0 && iy >= 0 && ix < iy
 }
